@@ -214,6 +214,8 @@ class SimConn(object):
         self.closed_at = None
         self._c2s_last = 0.0
         self._s2c_last = 0.0
+        self._s2c_fifo = []
+        self._c2s_fifo = []
         self._pending = bytearray()
         self._flush_dc = None
         self.cut_c2s_at = None  # sever when the client's written byte count reaches this
@@ -253,7 +255,12 @@ class SimConn(object):
             return
         at = max(self.clock.seconds() + self.net.latency(), self._c2s_last)
         self._c2s_last = at
-        self.clock.labelled(at - self.clock.seconds(), "net.c2s", self._deliver_c2s, data)
+        self._c2s_fifo.append(data)
+        self.clock.labelled(at - self.clock.seconds(), "net.c2s", self._deliver_next_c2s)
+
+    def _deliver_next_c2s(self):
+        if self._c2s_fifo:
+            self._deliver_c2s(self._c2s_fifo.pop(0))
 
     def _deliver_c2s(self, data):
         if self._c2s_dead:
@@ -328,12 +335,20 @@ class SimConn(object):
                 for chunk in self.chunker.cut(data):
                     at = max(self.clock.seconds() + self.net.latency(), self._s2c_last)
                     self._s2c_last = at
-                    if ghost:
-                        self.clock.labelled(at - self.clock.seconds(), label, _noop)
-                    else:
-                        self.clock.labelled(at - self.clock.seconds(), label, self._deliver_s2c, chunk)
+                    # a byte stream keeps its order: each scheduled event hands over the OLDEST chunk still queued
+                    # (two chunks due at the same instant but scheduled from different "now"s can end up a rounding
+                    # error apart and fire in the wrong order)
+                    self._s2c_fifo.append(None if ghost else chunk)
+                    self.clock.labelled(at - self.clock.seconds(), label, self._deliver_next_s2c)
         if cut:
             self.sever("cut_s2c")
+
+    def _deliver_next_s2c(self):
+        if not self._s2c_fifo:
+            return
+        chunk = self._s2c_fifo.pop(0)
+        if chunk is not None:
+            self._deliver_s2c(chunk)
 
     def _flush(self):
         self._flush_dc = None
